@@ -52,7 +52,7 @@ fn is_task_completed(tasks: &Map<JobTaskId, RestorerTaskInfo>, task_id: JobTaskI
 
 impl RestorerJob {
     pub fn restore_job(
-        mut self,
+        self,
         job_id: JobId,
         state: &mut State,
         server_ref: &ServerRef,
@@ -75,37 +75,44 @@ impl RestorerJob {
                 submit.description().clone(),
                 submit.submitted_at(),
             );
-            let job = state.get_job_mut(job_id).unwrap();
-
             new_tasks.tasks.retain_mut(|t| {
                 t.task_deps
                     .retain(|d| !is_task_completed(&self.tasks, d.job_task_id()));
                 !is_task_completed(&self.tasks, t.id.job_task_id())
             });
 
-            for (task_id, job_task) in job.tasks.iter_mut() {
-                if let Some(task) = self.tasks.get_mut(task_id) {
-                    if task.crash_counter > 0 || task.instance_id.is_some() {
-                        new_tasks.adjust_instance_id_and_crash_counters.insert(
-                            TaskId::new(job_id, *task_id),
-                            (
-                                task.instance_id.map(|x| x.as_num() + 1).unwrap_or(0).into(),
-                                task.crash_counter,
-                            ),
-                        );
-                    }
-                    match &task.state {
-                        JobTaskState::Waiting | JobTaskState::Running { .. } => continue,
-                        JobTaskState::Finished { .. } => job.counters.n_finished_tasks += 1,
-                        JobTaskState::Failed { .. } => job.counters.n_failed_tasks += 1,
-                        JobTaskState::Canceled { .. } => job.counters.n_canceled_tasks += 1,
-                        JobTaskState::Aborted { .. } => job.counters.n_aborted_tasks += 1,
-                    }
-                    job_task.state = task.state.clone();
+            for t in &new_tasks.tasks {
+                if let Some(task) = self.tasks.get(&t.id.job_task_id())
+                    && (task.crash_counter > 0 || task.instance_id.is_some())
+                {
+                    new_tasks.adjust_instance_id_and_crash_counters.insert(
+                        t.id,
+                        (
+                            task.instance_id.map(|x| x.as_num() + 1).unwrap_or(0).into(),
+                            task.crash_counter,
+                        ),
+                    );
                 }
             }
             if !new_tasks.tasks.is_empty() {
                 result.push(new_tasks);
+            }
+        }
+
+        // Restore the states of completed tasks and the job counters; this has to be done once,
+        // when the tasks of all submits are attached, otherwise tasks of earlier submits would be
+        // counted repeatedly.
+        let job = state.get_job_mut(job_id).unwrap();
+        for (task_id, job_task) in job.tasks.iter_mut() {
+            if let Some(task) = self.tasks.get(task_id) {
+                match &task.state {
+                    JobTaskState::Waiting | JobTaskState::Running { .. } => continue,
+                    JobTaskState::Finished { .. } => job.counters.n_finished_tasks += 1,
+                    JobTaskState::Failed { .. } => job.counters.n_failed_tasks += 1,
+                    JobTaskState::Canceled { .. } => job.counters.n_canceled_tasks += 1,
+                    JobTaskState::Aborted { .. } => job.counters.n_aborted_tasks += 1,
+                }
+                job_task.state = task.state.clone();
             }
         }
         Ok(result)
